@@ -347,7 +347,8 @@ def rule_r5(ctx: Ctx) -> None:
                        "the 'crossover' child receives freshly synthesised material instead of parental material" if not options else
                        "although the donor offers same-typed subtrees, new material is synthesised")
                 break
-            if options and rv != options[0]:
+            is_copy = options and isinstance(rv, Sym) and rv.tag.startswith(options[0].tag + "~copy")     # a copy of the donor's subtree is parental material
+            if options and rv != options[0] and not is_copy:
                 verdict = None if rv is UNKNOWN else False
                 why = f"the child receives {rv!r}, not one of the donor's same-typed subtrees"
         ctx.ob("C06.R5", mu, node, f"tree crossover when {label}: the child receives parental material, nothing is synthesised", verdict, why)
